@@ -1088,6 +1088,12 @@ impl CollectionV3 {
     pub fn load_contig_batch(&mut self, archive: &mut Archive, id_batch: usize) -> Result<()> {
         // Use cumulative samples_loaded counter, NOT id_batch * batch_size
         // C++ AGC creates batches of ~50 samples, but batch_size defaults to 1M which is wrong
+        // Batches are always loaded in order starting from batch 0. Readers reload all batches
+        // after a failed lookup, so loading batch 0 again restarts the sample cursor instead of
+        // appending past the end of the sample table.
+        if id_batch == 0 {
+            self.samples_loaded = 0;
+        }
         let i_sample = self.samples_loaded;
 
         // Load contig names
